@@ -77,7 +77,6 @@ def run_circular_binseg(
     anomaly_scores = np.zeros(starts.size)
     anomaly_starts = np.zeros(starts.size, dtype=np.int64)
     anomaly_ends = np.zeros(starts.size, dtype=np.int64)
-    maximizers = np.zeros((starts.size, 2))
     for i, (start, end) in enumerate(zip(starts, ends)):
         anomaly_start_candidates, anomaly_end_candidates = make_anomaly_intervals(
             start, end, min_segment_length
@@ -100,6 +99,7 @@ def run_circular_binseg(
         anomaly_starts[i] = anomaly_start_candidates[argmax]
         anomaly_ends[i] = anomaly_end_candidates[argmax]
 
+    maximizers = np.column_stack((anomaly_starts, anomaly_ends))
     anomalies = greedy_anomaly_selection(
         anomaly_scores, anomaly_starts, anomaly_ends, starts, ends, threshold
     )
